@@ -18,6 +18,7 @@ type owned struct {
 	lo, hi uintptr
 	pat    byte
 	keep   []byte // keeps the memory alive and gives access for the canary
+	unsafe bool   // the slice extends beyond the memory that was donated: never written by the driver
 }
 
 // a pointer the driver has put into the pool and not seen coming back
@@ -126,6 +127,16 @@ func (s *iso) exclusive(lo, hi uintptr) bool {
 	return true
 }
 
+// covering returns some ledger interval overlapping [lo,hi)
+func (s *iso) covering(lo, hi uintptr) *owned {
+	for i := range s.ledger {
+		if overlap(s.ledger[i].lo, s.ledger[i].hi, lo, hi) {
+			return &s.ledger[i]
+		}
+	}
+	return nil
+}
+
 func (s *iso) owns(c int, lo, hi uintptr) int {
 	for i, o := range s.ledger {
 		if o.client == c && o.lo <= lo && hi <= o.hi && o.keep != nil {
@@ -139,7 +150,7 @@ const fillAll = 1 << 20
 
 // paint writes the owner's pattern over [lo,hi) of o
 func paint(o *owned, lo, hi uintptr) {
-	if len(o.keep) > fillAll { // huge allocations carry no canary (touching 2 GiB per op is too slow)
+	if len(o.keep) > fillAll || o.unsafe { // huge allocations carry no canary (touching 2 GiB per op is too slow)
 		return
 	}
 	base := addr(o.keep)
@@ -153,7 +164,7 @@ func intact(o *owned, lo, hi uintptr) bool {
 	if o.keep == nil || hi <= lo {
 		return true
 	}
-	if len(o.keep) > fillAll {
+	if len(o.keep) > fillAll || o.unsafe {
 		return true
 	}
 	base := addr(o.keep)
@@ -165,10 +176,10 @@ func intact(o *owned, lo, hi uintptr) bool {
 	return true
 }
 
-func (s *iso) grant(c int, b []byte) {
+func (s *iso) grant(c int, b []byte, within bool) {
 	full := b[:cap(b)]
 	s.nroot++
-	o := owned{client: c, lo: addr(full), hi: addr(full) + uintptr(cap(b)), pat: byte(1 + s.nroot%250), keep: full}
+	o := owned{client: c, lo: addr(full), hi: addr(full) + uintptr(cap(b)), pat: byte(1 + s.nroot%250), keep: full, unsafe: !within}
 	if cap(b) > 0 {
 		paint(&o, o.lo, o.hi)
 	}
@@ -202,7 +213,7 @@ func (s *iso) exec(op tr.Line) {
 			return
 		}
 		s.handles = append(s.handles, b)
-		s.grant(c, b)
+		s.grant(c, b, true)
 		w.Obs(tr.L("mk", tr.I(len(b)), tr.I(cap(b))))
 		w.Hist("mk")
 	case "sub":
@@ -246,8 +257,10 @@ func (s *iso) exec(op tr.Line) {
 		} else {
 			s.disc = false
 			w.Tag("undisciplined")
-			for j := range b {
-				b[j] = 0xAA
+			if u := s.covering(lo, hi); u == nil || !u.unsafe {
+				for j := range b {
+					b[j] = 0xAA
+				}
 			}
 			w.Obs(tr.L("wr", "0"))
 		}
@@ -346,8 +359,17 @@ func (s *iso) execGet(c, size int) {
 			}
 		}
 	}
+	if !within {
+		// keep only the part that really was donated: a slice (or a re-slice) reaching
+		// into a neighbouring heap object would crash the collector
+		n := len(b)
+		if n > dcap {
+			n = dcap
+		}
+		b = b[:n:dcap]
+	}
 	s.handles = append(s.handles, b)
-	s.grant(c, b)
+	s.grant(c, b, true)
 }
 
 func (s *iso) execPut(c, h int) {
